@@ -1005,6 +1005,10 @@ def _almost_converged(net):
     and stall at the round-off floor): not a verdict difference worth the name."""
     ir = net.get("_internal_results", {})
     last = [v[-1] for k, v in ir.items() if isinstance(v, list) and v]
+    # (a NaN residual is a failed solve - e.g. the thermal NaN guard - not slow convergence)
+    resid = [v for k, v in ir.items() if isinstance(k, str) and k.startswith("residual_norm") and v is not None]
+    if any(not np.isfinite(x) for x in resid):
+        return False
     return bool(last) and all(np.isfinite(x) and x < 1e-5 for x in last)
 
 
@@ -1478,6 +1482,7 @@ def _exec_c06(trace, res):
             ref[t]["vtag"] = ["%s#%d" % (t, i) for i in ref[t].index]
     mode = "sequential" if meta.get("thermal") and not meta.get("needs_bidirectional") else ("bidirectional" if meta.get("needs_bidirectional") else "hydraulics")
     refs = {}
+    ref_nets = {}
 
     def reference(use_numba):
         # the reference uses the same engine as the variant: engine dependence is C07's subject
@@ -1488,6 +1493,7 @@ def _exec_c06(trace, res):
                 refs[use_numba] = ("ok", _results_by_tag(r_))
             except PipeflowNotConverged:
                 refs[use_numba] = ("nc", None)
+                ref_nets[use_numba] = r_
             except Exception as e:
                 refs[use_numba] = ("exc:%s" % type(e).__name__, None)
             res.calcs += 1
@@ -1517,7 +1523,8 @@ def _exec_c06(trace, res):
             res.count("probe:foreign-exception-both")
             continue
         if ref_out != out:
-            if {ref_out, out} == {"ok", "nc"} and _almost_converged(net):
+            if {ref_out, out} == {"ok", "nc"} and _almost_converged(net if out == "nc" else ref_nets.get(var["use_numba"], {})):
+                # (the side that ran out of budget was creeping towards the solution at the round-off floor)
                 res.count("probe:slow-convergence-verdict-skipped")
                 continue
             res.violate("C06", "C06/verdict-differs:%s-vs-%s" % (ref_out, out), label, vi)
